@@ -95,13 +95,27 @@ func (e *Exec) modOfInstr(in ssa.Instruction, depth int, ms *modSet) {
 		}
 	case *ssa.Send:
 		e.modOfChan(x.Chan, true, ms)
+		ms.ghosts["clock"] = true
 	case *ssa.Select:
 		for _, stt := range x.States {
 			e.modOfChan(stt.Chan, stt.Dir == types.SendOnly, ms)
 		}
+		if x.Blocking {
+			ms.ghosts["clock"] = true
+			for _, stt := range x.States {
+				if u, ok := stt.Chan.(*ssa.UnOp); ok {
+					if fa, ok := u.X.(*ssa.FieldAddr); ok {
+						if st2, T := structOf(fa.X.Type()); st2 != nil && fieldArrName(T, st2.Field(fa.Field).Name()) == tickerChanOrigin && e.gfDeclared("lastTick") {
+							ms.arrs["GF_lastTick"] = true
+						}
+					}
+				}
+			}
+		}
 	case *ssa.UnOp:
 		if x.Op == token.ARROW {
 			e.modOfChan(x.X, false, ms)
+			ms.ghosts["clock"] = true
 		}
 	case ssa.CallInstruction:
 		c := x.Common()
@@ -120,7 +134,7 @@ func (e *Exec) modOfInstr(in ssa.Instruction, depth int, ms *modSet) {
 				}
 				return
 			}
-			if stdlibEffect(callee, ms) {
+			if e.stdlibEffect(callee, ms) {
 				return
 			}
 			return // stdlib assumed not to touch library heap
@@ -147,6 +161,9 @@ func (e *Exec) modOfInstr(in ssa.Instruction, depth int, ms *modSet) {
 			if n, ok := types.Unalias(c.Value.Type()).(*types.Named); ok && n.Obj().Pkg() != nil && !strings.HasPrefix(n.Obj().Pkg().Path(), modPath) {
 				return
 			}
+		}
+		if callee == nil && !c.IsInvoke() && isCancelFunc(c.Value.Type()) && e.gfDeclared("cancelled") {
+			ms.arrs["GF_cancelled"] = true
 		}
 		cbMode := ""
 		if callee == nil && !c.IsInvoke() && e.fc != nil {
@@ -325,6 +342,32 @@ func (e *Exec) cutLoop(fr *Frame, li *loopInfo, st *State) *State {
 			if ex, err := parseExprSafe(argSrc); err == nil {
 				located["GF_"+name] = append(located["GF_"+name], e.evalExpr(env, ex).t())
 				continue
+			}
+		}
+		// x.f with x a pointer to a struct: only that object's field changes
+		if dot := strings.LastIndex(m, "."); dot > 0 && !strings.Contains(m, "(") {
+			baseSrc, fname := strings.TrimSpace(m[:dot]), strings.TrimSpace(m[dot+1:])
+			root := baseSrc
+			if i := strings.Index(root, "."); i >= 0 {
+				root = root[:i]
+			}
+			if hasVar(env, root) && fname != "*" {
+				if ex, err := parseExprSafe(baseSrc); err == nil {
+					base := e.evalExpr(env, ex)
+					if base.T != nil {
+						if stt, _ := structOf(base.T); stt != nil {
+							done := false
+							for _, an := range fieldArrays(base.T, fname) {
+								located[an] = append(located[an], base.t())
+								ms.arrs[an] = true
+								done = true
+							}
+							if done {
+								continue
+							}
+						}
+					}
+				}
 			}
 		}
 		e.modOfClause(e.fc, m, ms)
